@@ -143,10 +143,113 @@ fn grow_file(c: &Value, variant: u32) -> (SlurmFile, Payload) {
     (file, item)
 }
 
+// ---- spec/SlurmAssert.tla: assertion lists grown one assertion at a time
+fn a_asn(v: &Value) -> Asn {
+    match v.as_u64().unwrap() { 0 => Asn::from_u32(0), 1 => Asn::from_u32(64496), _ => Asn::from_u32(u32::MAX) }
+}
+fn a_prefix(a: &Value) -> (MaxLenPrefix, String) {
+    let fam = a["fam"].as_u64().unwrap();
+    let (addr, len, top): (IpAddr, u8, u8) = match (fam, a["len"].as_str().unwrap()) {
+        (4, "zero") => ("0.0.0.0".parse().unwrap(), 0, 32),
+        (4, "mid") => ("192.0.2.0".parse().unwrap(), 24, 32),
+        (4, _) => ("192.0.2.1".parse().unwrap(), 32, 32),
+        (_, "zero") => ("::".parse().unwrap(), 0, 128),
+        (_, "mid") => ("2001:db8::".parse().unwrap(), 32, 128),
+        _ => ("2001:db8::1".parse().unwrap(), 128, 128),
+    };
+    let max = match a["maxlen"].as_str().unwrap() { "none" => None, "same" => Some(len), "more" => Some(len + 1), _ => Some(top) };
+    (MaxLenPrefix::new(Prefix::new(addr, len).unwrap(), max).unwrap(), format!("{addr}/{len} max {max:?}"))
+}
+fn a_keyinfo(a: &Value) -> Vec<u8> {
+    [0xfbu8, 0xef, 0xbe, 0x00][..a["keylen"].as_u64().unwrap() as usize].to_vec()
+}
+fn a_ski(v: &Value) -> KeyIdentifier {
+    if v == "k1" { KeyIdentifier::from([0x11u8; 20]) } else { KeyIdentifier::from([0xFEu8; 20]) }
+}
+fn a_providers(a: &Value) -> Vec<u32> {
+    a["providers"].as_array().unwrap().iter().map(|x| if x.as_u64().unwrap() == 1 { 65000 } else { u32::MAX }).collect()
+}
+/// what an item of the specification looks like as a payload item, field by field
+fn describe(p: &Payload) -> String {
+    match p {
+        Payload::Origin(o) => format!("origin {}/{} max {:?} {}", o.prefix.prefix().addr(), o.prefix.prefix().len(), o.prefix.max_len(), o.asn),
+        Payload::RouterKey(k) => format!("key {} {} {:?}", k.key_identifier, k.asn, k.key_info.as_slice()),
+        Payload::Aspa(a) => format!("aspa {} {:?}", a.customer, a.providers.iter().map(|x| x.into_u32()).collect::<Vec<_>>()),
+    }
+}
+fn replay_assert(c: &Value) -> Result<(), (String, String)> {
+    let cm = |a: &Value| if a["comment"] == true { Some("a \"comment\" <&> \\ é".to_string()) } else { None };
+    let mut asr = LocallyAddedAssertions::new(Vec::new(), Vec::new());
+    for a in c["alist"].as_array().unwrap() {
+        match a["kind"].as_str().unwrap() {
+            "prefix" => asr.prefix.push(PrefixAssertion::new(a_prefix(a).0, a_asn(&a["asn"]), cm(a))),
+            "bgpsec" => {
+                let ki = Base64KeyInfo::try_from(a_keyinfo(a)).map_err(|e| ("assert:keyinfo".to_string(), format!("key information of {} octets refused: {e}", a["keylen"])))?;
+                asr.bgpsec.push(BgpsecAssertion::new(a_asn(&a["asn"]), a_ski(&a["ski"]), ki, cm(a)))
+            }
+            _ => {
+                // the provider list as the library's own type holds it (whether that type keeps order and repeats is its business)
+                let pr = match ProviderAsns::try_from_iter(a_providers(a).into_iter().map(Asn::from_u32)) { Ok(p) => p, Err(_) => return Ok(()) };
+                asr.aspa.get_or_insert_with(Vec::new).push(AspaAssertion::new(a_asn(&a["customer"]), pr, cm(a)))
+            }
+        }
+    }
+    let file = SlurmFile::new(ValidationOutputFilters::new(Vec::new(), Vec::new()), asr);
+    // each assertion yields the payload item with exactly its fields, the three lists one after the other
+    let want: Vec<String> = c["yield"].as_array().unwrap().iter().map(|it| match it["kind"].as_str().unwrap() {
+        "prefix" => { let (m, _) = a_prefix(it); format!("origin {}/{} max {:?} {}", m.prefix().addr(), m.prefix().len(), m.max_len(), a_asn(&it["asn"])) }
+        "bgpsec" => format!("key {} {} {:?}", a_ski(&it["ski"]), a_asn(&it["asn"]), a_keyinfo(it)),
+        _ => format!("aspa {} {:?}", a_asn(&it["customer"]),
+                     ProviderAsns::try_from_iter(a_providers(it).into_iter().map(Asn::from_u32)).unwrap().iter().map(|x| x.into_u32()).collect::<Vec<_>>()),
+    }).collect();
+    let got: Vec<String> = file.assertions.iter_payload().map(|p| describe(&p)).collect();
+    if got != want {
+        return Err(("assert:payload".into(), format!("iter_payload = {got:?}, specification {want:?}")));
+    }
+    // JSON there and back: an equal file that yields the same items
+    for text in [file.to_string(), file.to_string_pretty()] {
+        let back = SlurmFile::from_str(&text).map_err(|e| ("assert:json:parse".to_string(), format!("own JSON does not parse: {e}: {text}")))?;
+        if back != file {
+            return Err(("assert:json:roundtrip".into(), format!("JSON round trip changed the file: {text}")));
+        }
+        let again: Vec<String> = back.assertions.iter_payload().map(|p| describe(&p)).collect();
+        if again != want {
+            return Err(("assert:json:payload".into(), format!("the parsed-back file yields {again:?}, specification {want:?}")));
+        }
+        // the members the specification's Json1 names, nothing null
+        let v: Value = serde_json::from_str(&text).map_err(|e| ("assert:json:wellformed".to_string(), e.to_string()))?;
+        let la = &v["locallyAddedAssertions"];
+        for (list, model_kind) in [("prefixAssertions", "prefix"), ("bgpsecAssertions", "bgpsec"), ("aspaAssertions", "aspa")] {
+            let model: Vec<&Value> = c["alist"].as_array().unwrap().iter().filter(|a| a["kind"] == model_kind).collect();
+            let objs = la[list].as_array().cloned().unwrap_or_default();
+            if objs.len() != model.len() {
+                return Err(("assert:json:members".into(), format!("{list} has {} entries, the file {}", objs.len(), model.len())));
+            }
+            for (o, a) in objs.iter().zip(model) {
+                let has = |m: &str| o.get(m).map(|x| !x.is_null()).unwrap_or(false);
+                if has("comment") != (a["comment"] == true) || (model_kind == "prefix" && has("maxPrefixLength") != (a["maxlen"] != "none")) || o.as_object().unwrap().values().any(|x| x.is_null()) {
+                    return Err(("beyond:assert:json:members".into(), format!("{list}: written as {o}, the assertion is {a}")));
+                }
+            }
+        }
+    }
+    Ok(())
+}
+
 pub fn replay(args: &[String]) {
     let cases = read_cases(&args[0]);
     let mut s = Summary::new();
     for c in &cases {
+        if c["op"] == "assert" {
+            match guarded(|| replay_assert(c)) {
+                Ok(Ok(())) => {}
+                Ok(Err((k, m))) => s.violation(&k, m, c.clone()),
+                Err(m) => s.violation("assert:panic", m, c.clone()),
+            }
+            s.eval(Some(&c["alist"].to_string()));
+            if s.evaluations % 9001 == 17 { s.sample(c.clone()); }
+            continue;
+        }
         let exp = c["drop"].as_bool().unwrap();
         for variant in 0..4u32 {
             let case = json!({"case": c, "variant": variant});
